@@ -38,6 +38,10 @@ var errC04Link = errors.New("c04: link failure")
 // the error a failing Write of the client's transport returns: errC04Link, or io.EOF itself (what a closed x/crypto/ssh
 // channel returns from Write) - set per case
 var c04WErr error = errC04Link
+
+// c04WriteOnly: a failing Write does not take the link down - every later Write fails as well, but the server->client
+// direction stays open and silent (nothing tells the receiver that the connection is gone) - set per case
+var c04WriteOnly bool
 var errC04Skipped = errors.New("c04: call skipped, its file was never opened")
 
 const c04Watchdog = 5 * time.Second
@@ -63,6 +67,9 @@ func (l *c04Link) fail(inFrame bool) {
 		l.failed.Store(true)
 		if l.onFail != nil {
 			l.onFail(inFrame)
+		}
+		if c04WriteOnly {
+			return
 		}
 		l.Conn.Close()
 		l.peer.Close()
@@ -276,7 +283,7 @@ func (p *c04Peer) writer() {
 		}
 		o := pending[0]
 		pending = pending[1:]
-		if !cut {
+		if !cut || c04WriteOnly { // write-side-only failure: the peer is alive and goes on answering what it received
 			p.emit(o)
 		}
 	}
@@ -742,6 +749,11 @@ func c04Session(v int, mode string, budget, failAt int, part bool, lag int) *c04
 		res.cutEarly = p.cutDone
 		p.mu.Unlock()
 		res.writes = link.writes()
+		if c04WriteOnly {
+			// the calls have been judged with the reply direction open and silent; now the link really goes down
+			link.Conn.Close()
+			link.peer.Close()
+		}
 		p.cutNow()
 		var aerr error
 		if c04Within(func() { _, aerr = st.cl.Stat("/f") }) {
@@ -1139,6 +1151,14 @@ func runC04(c *Ctx) {
 				c.Stat("mode_" + mode)
 				evaluate(n, c04Session(v, mode, k, -1, false, lag))
 			}
+		}
+		// the writer fails and nothing else happens: the reply direction stays open and silent
+		for j := 0; j <= J+3; j++ {
+			n := c.Case("cut", kvi("k", j), kvs("mode", "wfail"), kvi("sess", v), kvi("lag", lag), kvb("part", false), kvb("weof", false), kvb("wonly", true))
+			c.Stat("mode_wfail_write_side_only")
+			c04WriteOnly = true
+			evaluate(n, c04Session(v, "wfail", -1, j, false, lag))
+			c04WriteOnly = false
 		}
 		for _, part := range []bool{false, true} {
 			for _, weof := range []bool{false, true} {
